@@ -107,6 +107,18 @@ func TestVerifC01(t *testing.T) {
 		res := r.BFS(name, func() vx.Sys { return dbxWithSoft(r, c, name) }, p.depth)
 		t.Logf("C01 %s depth %d: states=%d transitions=%d depthCompleted=%d", name, p.depth, res.States, res.Transitions, res.DepthCompleted)
 	}
+	// search from non-initial states (deep scripted pre-states), medium alphabet
+	for _, cn := range vx.Pick(r, []string{"ooo"}, []string{"ooo", "base", "oooneg", "ooo+snap", "ooo+xor2+st", "v2"}) {
+		if r.Expired() {
+			r.NotExhaustive("deadline before the non-initial-state search of " + cn)
+			break
+		}
+		c := cfgs[cn]
+		c.Alphabet = "medium"
+		name := cn + "@medium+starts"
+		res := r.BFSFrom(name, func() vx.Sys { return dbxWithSoft(r, c, name) }, dbxStarts(c.W), vx.Pick(r, 1, 2))
+		t.Logf("C01 %s: states=%d transitions=%d depthCompleted=%d", name, res.States, res.Transitions, res.DepthCompleted)
+	}
 	r.Set("rule", "explicit-state BFS over dbx operation histories (append/commit/rollback/delete/head compaction/OOO compaction/Compact/CleanTombstones/reopen) with canonical-state de-duplication; after every transition Querier and ChunkQuerier over 45 ranges are compared with the reference model")
 	r.Assume("appendable window (head max time, min valid time) is read from the implementation when an appender is created; admission is then predicted by the model")
 	r.Assume("background goroutines of tsdb.DB are quiescent: compactions disabled for the run loop, block reload interval 1000h")
